@@ -220,7 +220,7 @@ TSpec == TInit /\ [][TNext]_tvars
 
 (* ------------------------------ verdicts ------------------------------ *)
 \* C01: results and logical contents are exactly the reference map's
-ResultsMatch == flags \cap {"res", "eff", "other", "reopen", "overhead"} = {}
+ResultsMatch == flags \cap {"res", "eff", "other", "reopen", "overhead", "range"} = {}
 \* C11: expiry arithmetic exact; nothing hidden early, nothing served late
 ExpiryExact == flags \cap {"exp", "c11"} = {}
 \* C12: automatic versions
